@@ -541,6 +541,9 @@ class WebSocket:
             )
         if isinstance(reason, str):
             reason = reason.encode("utf-8")
+        if len(reason) > 123:
+            # RFC 6455 5.5: a control frame carries at most 125 bytes (status + reason)
+            raise ValueError("reason is too long")
         self.connected = False
         self.send(struct.pack("!H", status) + reason, ABNF.OPCODE_CLOSE)
 
@@ -568,6 +571,9 @@ class WebSocket:
 
         if isinstance(reason, str):
             reason = reason.encode("utf-8")
+        if len(reason) > 123:
+            # RFC 6455 5.5: a control frame carries at most 125 bytes (status + reason)
+            raise ValueError("reason is too long")
 
         try:
             self.connected = False
